@@ -439,8 +439,69 @@ impl Check for Edits {
     }
 }
 
+/// Ill-typed (and some still well-typed) generated programs: every single-site mutant of the
+/// System-F / F-omega universe, through the full front end with diagnostics rendered.
+pub struct Mutants {
+    texts: Vec<String>,
+    chunk: usize,
+    scratch: Option<Scratch>,
+}
+impl Mutants {
+    pub fn new(tier: Tier) -> Self {
+        let stride = if tier == Tier::Thorough { 1 } else { 6 };
+        let mut texts = vec![];
+        let mut k = 0usize;
+        for p in crate::poly::universe(tier) {
+            for (_, m) in crate::poly::mutants(&p) {
+                if k % stride == 0 {
+                    texts.push(crate::poly::program(&m, false));
+                }
+                k += 1;
+            }
+        }
+        Mutants { texts, chunk: 64, scratch: None }
+    }
+}
+impl Check for Mutants {
+    fn property(&self) -> &'static str {
+        "C10"
+    }
+    fn name(&self) -> String {
+        "c10-generated-mutants".into()
+    }
+    fn len(&self) -> usize {
+        self.texts.len().div_ceil(self.chunk)
+    }
+    fn describe(&self, i: usize) -> String {
+        format!("mutants #{}..; first:\n{}", i * self.chunk, self.texts[i * self.chunk])
+    }
+    fn rule(&self) -> String {
+        format!("every {} single-site mutant of the System-F / F-omega universe ({} programs: wrong variable, wrong type argument, wrong annotation, wrong package witness, escaping abstract type — mostly ill typed, in many different ways), each through the full front end with every diagnostic rendered (ariadne and the CLI renderer) and every span checked; non-trivial = every chunk", if self.texts.len() > 60000 { "" } else { "sixth" }, self.texts.len())
+    }
+    fn timeout(&self) -> std::time::Duration {
+        std::time::Duration::from_secs(120)
+    }
+    fn crash_is_violation(&self) -> bool {
+        true
+    }
+    fn run(&mut self, i: usize) -> CaseResult {
+        let scratch = self.scratch.get_or_insert_with(|| Scratch::new("c10m"));
+        let a = i * self.chunk;
+        let b = (a + self.chunk).min(self.texts.len());
+        let mut r = CaseResult::ok("chunk").key(i as u64).nontrivial(true);
+        for t in &self.texts[a..b] {
+            let v = assess(scratch, "main.zydeco", t, &mut r, "mutant");
+            if let Some(v) = v {
+                r = r.count(&format!("verdict_{}", v.tag()), 1);
+            }
+        }
+        r
+    }
+}
+
 pub fn checks(tier: Tier) -> Vec<Box<dyn Check>> {
     vec![
+        Box::new(Mutants::new(tier)),
         Box::new(Tokens::new(tier)),
         Box::new(Metadata::new()),
         Box::new(IllFormed::new()),
